@@ -2,7 +2,7 @@
    EncodedError given directly).  Definitions only. *)
 From Errv Require Import Base.Str Base.Sexp Redact.Markers Redact.Buffer
      Model.Err Model.Sem Model.Details Model.Marks Model.Codec Model.Access Model.Build Model.Parse
-     Model.Report Model.Std Model.Run.
+     Model.Report Model.Std Model.Run Model.Migrate.
 
 Definition parse_tmark (x : sexp) : option tmark :=
   match x with L [A f; A e] => Some (mktm f e) | _ => None end.
@@ -66,8 +66,32 @@ Fixpoint parse_enc (x : sexp) {struct x} : option enc :=
 
 (* (deccase id ENC (obs...)): DecodeError of the message at a process that has
    all the decoders, then the observations on the result *)
+(* (migcase id ((prev new) ...)): RegisterTypeMigration calls from the empty registry *)
+Definition parse_reg (x : sexp) : option (key * key) :=
+  match x with L [A p; A n] => Some (p, n) | _ => None end.
+
+Fixpoint insert_pair (kv : str * str) (l : list (str * str)) : list (str * str) :=
+  match l with
+  | [] => [kv]
+  | x :: r => if str_leb (fst kv) (fst x) then kv :: l else x :: insert_pair kv r
+  end.
+
+Definition run_migcase (id : str) (regs : list sexp) : sexp :=
+  match omap parse_reg regs with
+  | Some rs =>
+    match register_all rs [] with
+    | Some r =>
+      L [sym "result"; A id;
+         L [sym "ok"; L (List.map (fun kv => L [A (fst kv); A (snd kv)]) (fold_right insert_pair [] r))]]
+    | None => L [sym "result"; A id; L [sym "panic"]]
+    end
+  | None => L [sym "result"; A id; bad "regs"]
+  end.
+
 Definition run_case2 (x : sexp) : sexp :=
   match x with
+  | L [A c; A id; L regs] =>
+    if str_eqb c (lit "migcase") then run_migcase id regs else run_case x
   | L [A c; A id; encx; L obs] =>
     if str_eqb c (lit "deccase") then
       match parse_enc encx with
